@@ -157,7 +157,7 @@ ROWS = {
  'C15': dict(
   text='Lean theorems: parse(encode img) = img for every abstract FRU image (all areas, four text encodings, custom '
        'fields, multi-records incl. PICMG), acceptance implies all zero-sum checksums, hence any single alteration of '
-       'a covered byte is rejected - for an info-area length byte: acceptance implies a declared length >= 1 unit inside the data with a zero sum over exactly that span, which contains the byte (0 and beyond-data rejected; length_byte_limit shows no reader can do more), on the file and the device path; OEM C0h records of other manufacturers are undecoded records; today\'s source is equated with the intended variant over the five AST-read forms (source_is_intended_variant, parse_encode_today; tables_match_storage_definition demands the dispatch guards with = some); 26 theorems. Masks, shifts, BCD map, dispatch constants and length guards are regenerated from '
+       'a covered byte is rejected - for an info-area length byte: acceptance implies a declared length >= 1 unit inside the data with a zero sum over exactly that span, which contains the byte (0 and beyond-data rejected; length_byte_limit shows no reader can do more), on the file and the device path; OEM C0h records of other manufacturers are undecoded records; today\'s source is equated with the intended variant over the five AST-read forms (source_is_intended_variant, parse_encode_today; tables_match_storage_definition demands the dispatch guards with = some); acceptance implies imageOk: checksums over the declared spans, every field and C1h marker inside its area, areas disjoint, on the file and the device path (accept_implies_wellformed); an altered info-area length byte is accepted only when shortened by whole unused units with a zero-sum span, never when lengthened (alteration_rejected_length_byte; on a device only into bytes of no area), the residual is exhibited in both directions by length_byte_limit (each altered image is exactly the encoding of another well-formed image); 36 theorems. Masks, shifts, BCD map, dispatch constants and length guards are regenerated from '
        'fru.py/fields.py on every run; images are encoded by an independent Lean encoder written from the storage definition.',
   note='translator harness/translate/fru.py; Model/FruParse.lean hand-written and tied by differential run (bytes, '
        'array, list, file, device path); datetime arithmetic modelled; five probed variant flags with counter-example theorems; device path modelled (Model/FruDevice) and tied; translator also recognises the dispatch, length-guard and area-length shapes; device histories on one long-lived Ipmi object: image A read, contents replaced by image B behind the back of the library / by a complete / a faulted-and-resumed / a tail-first write_fru_data, other FRU ids in between, read again => B\'s view',
